@@ -100,7 +100,27 @@ def run_case(case, layout_seed=None, snaps=True):
         rename_part(case, text, tree, objects, states, ev)
     for d in case.get("prints", []):
         ev.append(print_event(dom, d))
+    for pr in case.get("big_probes", []):
+        ev.append(big_probe_event(dom, case["objs"], objects, pr))
     return hist
+
+
+def big_probe_event(dom, objs, objects, pr):
+    """C12: a comparison of two values given as mixed numbers i + t/d at a magnitude that does not fit a 31-bit
+    rational; the state is built from decimal text, the answer is that of the one-condition action c_<op>"""
+    def text(v):
+        i, t, d = v
+        frac = f"{t / d:.10f}".split(".")[1].rstrip("0") or "0"
+        return f"{i}.{frac}"
+    try:
+        ptext = (f"(define (problem bp) (:domain {dom.name}) (:objects {' '.join(f'{n} - {t}' for n, t in objs)})\n"
+                 f"(:init (= (f o1) {text(pr['x'])}) (= (g) {text(pr['y'])})) (:goal (and)))")
+        prob = pylib.parse_problem_text(ptext, dom)
+        st = pylib.State(prob.initial_state_predicates, prob.initial_state_fluents, is_init=True)
+        out = pylib.observe_applicable(dom, "c_" + pr["name"], ["o1"], objects, st)
+    except Exception as e:  # noqa: BLE001
+        out = {"exc": pylib.exc_name(e)}
+    return {"c": "CmpProbe", "op": pr["op"], "x": pr["x"], "y": pr["y"], "out": out}
 
 
 def print_event(dom, digits):
